@@ -1,5 +1,6 @@
 """C08 - relocation tables decode exactly; debug-section relocation follows the psABI."""
 from symx.api import H
+from harness import c09 as C9
 from spec import enc
 from spec import elf_layout as L
 from spec import relocs as R
@@ -380,6 +381,10 @@ HARNESSES = [
       desc='_do_apply_relocation on a 16-byte symbolic section: per machine x class x byte order x REL/RELA x each supported type and "any other type" (symbolic): '
            'field = psABI formula mod 2^width, every other byte unchanged; unsupported type / wrong flavour / symbol index out of range -> ELFRelocationError with the bytes untouched',
       bounds={'all': 'symbol value, addend, in-place bytes symbolic at full width; r_offset 0..8; symbol index 0..3 over a 2-entry table'}),
+    H('h8_6_dynamic_tables', C9.h_dynamic, lambda tier: [c for c in C9._instances(tier) if c.get('both_flavours') or (c.get('layout') == 'split' and c['variant'] == 'stripped')],
+      expect=('ok',),
+      desc='the relocation tables reached through the dynamic array (DT_REL / DT_RELA / DT_JMPREL; objects carrying BOTH flavours; pointers mapped through two PT_LOAD segments), '
+           'section view and segment view (harness shared with C09)'),
     H('h8_5_plumbing', h_plumbing, lambda tier: [dict(relname=n, relocate=r, order=o) for n in ('.rela.debug_info', '.rela.debug_infoX', '.rela.text') for r in (True, False) for o in ('after', 'before')], expect=('ok',),
       desc='generated relocatable x86-64 image: get_dwarf_info(relocate_dwarf_sections) applies exactly the .rela<name> section to the copy handed to DWARFInfo and never touches the file'),
 ]
